@@ -41,7 +41,7 @@ for P in $CHECKS; do
   LOG=$OUT/check_$P.log
   VERIF_REPO="$D/repo" VERIF_BUDGET_S=${MUT_BUDGET:-40} VERIF_EVIDENCE_DIR="$D/evidence" python3 verif.py check $P > $LOG 2>&1
   RC=$?
-  CLS=$(grep -m1 "class=" $LOG | sed 's/.*class=//')
+  CLS=$(grep -a -m1 "class=" $LOG | sed 's/.*class=//')
   echo "  check $P: exit $RC ${CLS:+class=$CLS}"
   RESULTS="$RESULTS{\"check\":\"$P\",\"exit\":$RC,\"class\":\"$(echo $CLS | sed 's/"/\\"/g')\"},"
   # keep one replay file as evidence of detection
